@@ -13,6 +13,7 @@ From Coq Require Import List Bool NArith Strings.String.
 From Falco Require Import Base.Bytes Model.FmtTok Model.FmtNorm
   Proofs.FmtRestyle Proofs.FmtSort Proofs.FmtExamples
   Proofs.FmtIdem1 Proofs.FmtIdem2 Proofs.FmtIdem4 Proofs.FmtIdem5 Proofs.FmtIdem7.
+From Falco Require Model.Ast Proofs.FmtTreeExpr Proofs.FmtTreeNorm Proofs.FmtTreeProgram.
 Import ListNotations.
 
 (* every configuration (sort_declaration included), every token stream *)
@@ -40,6 +41,19 @@ Proof. exact restyle_text_idem. Qed.
 Theorem C14_example_idem : norm ex_conf (norm ex_conf ex_src) = norm ex_conf ex_src.
 Proof. exact ex_norm_idem. Qed.
 
+(* tree level (parser model of C02, Proofs/FmtTreeNorm.v): the documented normalisation of expressions and of
+   return values is idempotent.  PARTIAL: expressions and the return statement, not yet the recursion over
+   statements and declarations (no induction principle for the nested statement type is set up). *)
+Theorem C14_tree_expr_idem_partial :
+  forall c e, FmtTreeNorm.nexpr c (FmtTreeNorm.nexpr c e) = FmtTreeNorm.nexpr c e.
+Proof. exact FmtTreeProgram.nexpr_idem. Qed.
+
+Theorem C14_tree_return_idem_partial :
+  forall c fn v, FmtTreeNorm.nret c fn (FmtTreeNorm.nret c fn v) = FmtTreeNorm.nret c fn v.
+Proof. exact FmtTreeProgram.nret_idem. Qed.
+
+Print Assumptions C14_tree_expr_idem_partial.
+Print Assumptions C14_tree_return_idem_partial.
 Print Assumptions C14_norm_idem.
 Print Assumptions C14_run_idem.
 Print Assumptions C14_sort_idem.
